@@ -137,6 +137,14 @@ func neutralText(g *RNG) string {
 		}
 		used[s] = true
 		fmt.Fprintf(&sb, "[%s]\nanything = %d\nflag = %v\n", s, g.Intn(50), g.Chance(0.5))
+		// values of every TOML type: they are nobody's options and must stay inert
+		for k := g.Intn(3); k > 0; k-- {
+			sb.WriteString(pick(g, []string{
+				"ratio = 0.75\n", "when = 2021-05-27T07:32:00Z\n", "day = 2021-05-27\n", "list = [1, 2, 3]\n", "mixed = [1, \"two\", 3.0]\n",
+				"days = [2021-05-27, 2022-01-01]\n", "point = { x = 1, y = \"b\" }\n", "nested = [[1, 2], [\"a\"]]\n", "tables = [{ a = 1 }, { a = 2 }]\n",
+				"text = \"\"\"\nmulti\nline\"\"\"\n", "a.b.c = true\n", "big = 9223372036854775807\n", "neg = -0.0\n",
+			}))
+		}
 	}
 	return sb.String()
 }
